@@ -525,3 +525,213 @@ def instrumented_parallel_module(methods=None):
     mod._backend = real._backend
     mod.BACKENDS = real.BACKENDS
     return mod
+
+
+# ---------------------------------------------------------------------- several callback threads
+class MultiSim(Sim):
+    """Generalisation for backends whose completion callbacks may run concurrently (e.g. a custom backend built on
+    concurrent.futures: done-callbacks run in whichever worker thread finished the task).  n_cb callback threads;
+    still exactly one thread runs at any time.  Thread choices, where more than one callback thread could go on,
+    consume entries of `picks` like completion choices do.  With n_cb == 1 it schedules exactly like Sim."""
+
+    def __init__(self, n_cb=2, **kw):
+        super().__init__(**kw)
+        self.cbs = [_Th("cb%d" % i) for i in range(n_cb)]
+        for t in self.cbs + [self.main]:
+            t.busy = False
+            t.thread = None
+            t.waiting_lock = False
+        self.cb = self.cbs[0]
+        self._done = False
+
+    # cb_busy is derived
+    def _get_busy(self):
+        return any(c.busy for c in getattr(self, "cbs", []))
+
+    def _set_busy(self, v):
+        pass
+    cb_busy = property(_get_busy, _set_busy)
+
+    def _completable(self):
+        return any(not self._is_stuck(seq, r) for seq, r in self.pending)
+
+    def _th_can_run(self, t):
+        if t is self.main:
+            return not self._done and not (t.waiting_lock and self.lock_owner not in (None, t))
+        if self.stopping:
+            return False
+        if t.busy:
+            return not (t.waiting_lock and self.lock_owner not in (None, t))
+        first_idle = next((c for c in self.cbs if not c.busy), None)
+        return t is first_idle and self._completable()
+
+    def _cb_can_run(self):
+        return any(self._th_can_run(c) for c in self.cbs)
+
+    def cb_blocked_on_lock(self):
+        busy = [c for c in self.cbs if c.busy]
+        return bool(busy) and all(c.waiting_lock and self.lock_owner is self.main for c in busy)
+
+    def _main_can_run(self):
+        return self._th_can_run(self.main)
+
+    def _runnable_cbs(self):
+        return [c for c in self.cbs if self._th_can_run(c)]
+
+    def _ensure_thread(self, t):
+        if t is not self.main and t.thread is None:
+            t.thread = threading.Thread(target=self._loop, args=(t,), name="parsim-" + t.name, daemon=True)
+            t.thread.start()
+            self.cb_thread = self.cbs[0].thread
+
+    def _handover(self, target):
+        me = self.current
+        if target is me:
+            return
+        self._ensure_thread(target)
+        self.current = target
+        target.ev.set()
+        me.ev.wait()
+        me.ev.clear()
+        if me is not self.main and self.stopping:
+            raise SimStop()
+
+    def _choose_from(self, cands):
+        if not cands:
+            return None
+        if len(cands) == 1:
+            return cands[0]
+        return cands[self._pick(len(cands))]
+
+    def _next_after(self, me):
+        """Who runs when `me` is pre-empted or has to wait."""
+        if me is self.main:
+            return self._choose_from(self._runnable_cbs())
+        if self._main_can_run():
+            return self.main
+        return self._choose_from([c for c in self._runnable_cbs() if c is not me])
+
+    def sp(self, tag):
+        if self.stopping:
+            return
+        i = self.steps
+        self.steps += 1
+        if len(self.sp_tags) < 400:
+            self.sp_tags.append((self.current.name, tag))
+        if self.steps > MAX_STEPS:
+            raise SimHang("step budget exhausted (%d switch points)" % MAX_STEPS)
+        if self.on_switch_point is not None:
+            self.on_switch_point(self, tag)
+        if i in self.preempt:
+            nxt = self._next_after(self.current)
+            if nxt is not None:
+                self._handover(nxt)
+
+    def _loop(self, t):
+        t.ev.wait()
+        t.ev.clear()
+        try:
+            while not self.stopping:
+                cands = [k for k, (seq, r) in enumerate(self.pending) if not self._is_stuck(seq, r)]
+                if cands and self._th_can_run(t):
+                    k = cands[self._pick(len(cands))]
+                    seq, runner = self.pending.pop(k)
+                    t.busy = True
+                    try:
+                        self.events.append(("complete", seq))
+                        self.running_seq = seq
+                        self.n_started = getattr(self, "n_started", 0) + 1
+                        runner()
+                    except SimStop:
+                        raise
+                    except BaseException as e:
+                        self.cb_errors.append("%s: %s" % (type(e).__name__, e))
+                    finally:
+                        t.busy = False
+                        self.n_completed_batches += 1
+                    self.sp("cb-done")
+                nxt = self._next_after(t)
+                if nxt is None:
+                    if self._th_can_run(t):
+                        continue
+                    nxt = self.main          # nobody can run: the caller notices (hang detection)
+                if not self.stopping:
+                    self._handover(nxt)
+        except SimStop:
+            pass
+        finally:
+            t.busy = False
+            self.current = self.main
+            self.main.ev.set()
+
+    def lock_acquire(self):
+        self.sp("acq")
+        me = self.current
+        while self.lock_owner is not None and self.lock_owner is not me:
+            if self.stopping:
+                return
+            me.waiting_lock = True
+            try:
+                owner = self.lock_owner
+                if not self._th_can_run(owner):
+                    raise SimHang("deadlock: %s waits for the lock held by %s, which cannot run" % (me.name, owner.name))
+                self._handover(owner)
+            finally:
+                me.waiting_lock = False
+        self.lock_owner = me
+        self.lock_count += 1
+
+    def sleep(self, d):
+        self.clock += d
+        if self.current is self.main:
+            nxt = self._next_after(self.main)
+            if nxt is not None:
+                self.idle_sleeps = 0
+                self._handover(nxt)
+            else:
+                self.idle_sleeps += 1
+                self.steps += 1
+                if self.steps > MAX_STEPS:
+                    raise SimHang("the caller keeps sleeping while nothing can complete")
+        else:
+            self.sp("cb-sleep")
+
+    def wait_for(self, cond, what):
+        while not cond():
+            nxt = self._next_after(self.main)
+            if nxt is None:
+                raise SimHang("caller blocks on %s but nothing can complete" % what)
+            self._handover(nxt)
+
+    def join_callback_thread(self):
+        if self.current is not self.main:
+            return
+        n = 0
+        while self.cb_busy and not self.stopping:
+            nxt = self._choose_from([c for c in self.cbs if c.busy and self._th_can_run(c)])
+            if nxt is None:
+                raise SimHang("terminate() joins callback threads that wait for the lock held by the caller")
+            self._handover(nxt)
+            n += 1
+            if n > 400:
+                raise SimHang("callback threads do not finish")
+
+    def drain(self, limit=80):
+        n = 0
+        while n < limit:
+            nxt = self._next_after(self.main)
+            if nxt is None:
+                break
+            self._handover(nxt)
+            n += 1
+
+    def shutdown(self):
+        self.stopping = True
+        self._done = True
+        for t in self.cbs:
+            if t.thread is not None and t.thread.is_alive():
+                self.current = t
+                t.ev.set()
+                self.main.ev.wait(5)
+                self.main.ev.clear()
+                t.thread.join(5)
